@@ -157,8 +157,21 @@ func init() {
 			}
 			day := today()
 			g := lint.GlobalRegistry()
+			if isSeed && i%5 == 2 && o.Kind == corpus.Cert {
+				// an object a CALLER assembled or copied rather than took straight from the parser: the extension index
+				// the parser builds is missing (every run - full, alone, filtered - gets its own such object)
+				o = &mon.Obj{Kind: o.Kind, Name: o.Name, DER: o.DER, Post: func(x *mon.Obj) {
+					if x.Cert != nil {
+						x.Cert.ExtensionsMap = nil
+					}
+				}}
+				desc += " (extension index dropped by the caller)"
+				c.R.Count("caller_assembled_objects", 1)
+			}
 			if fo := o.Reparse(); fo != nil {
 				o = fo
+			} else if o.Cert == nil && o.CRL == nil && o.OCSP == nil {
+				return
 			}
 			rs, pv, _ := o.Lint(g)
 			c.R.Count("evaluations", 1)
